@@ -78,6 +78,19 @@ type Finding struct {
 	Class    string `json:"class,omitempty"`
 	Match    string `json:"match,omitempty"` // regexp over the violation detail (open findings only)
 	Commit   string `json:"commit,omitempty"`
+	Also     []string `json:"also,omitempty"` // further properties whose checks can run into this finding
+}
+
+func (f Finding) appliesTo(prop string) bool {
+	if f.Property == prop {
+		return true
+	}
+	for _, p := range f.Also {
+		if p == prop {
+			return true
+		}
+	}
+	return false
 }
 
 func die(code int, format string, args ...interface{}) {
@@ -396,7 +409,7 @@ func check(args []string) {
 	findings := loadFindings()
 	witnessRuns := 0
 	for _, f := range findings {
-		if f.Property != prop || f.Witness == "" {
+		if !f.appliesTo(prop) || f.Witness == "" {
 			continue
 		}
 		wp := filepath.Join(root, f.Witness)
@@ -600,8 +613,14 @@ func check(args []string) {
 }
 
 func matches(f Finding, class, detail string) bool {
-	if f.Class != "" && f.Class != class {
-		return false
+	if f.Class != "" {
+		cre, err := regexp.Compile("^(?:" + f.Class + ")$")
+		if err != nil {
+			die(2, "known_findings.json: bad class regexp in %s: %v", f.ID, err)
+		}
+		if !cre.MatchString(class) {
+			return false
+		}
 	}
 	if f.Match == "" {
 		return true
@@ -616,7 +635,7 @@ func matches(f Finding, class, detail string) bool {
 func matchKnown(fs []Finding, prop, class, detail string) *Finding {
 	for i := range fs {
 		f := &fs[i]
-		if f.Property == prop && f.Status == "open" && f.Class != "" && matches(*f, class, detail) {
+		if f.appliesTo(prop) && f.Status == "open" && f.Class != "" && matches(*f, class, detail) {
 			return f
 		}
 	}
